@@ -8,22 +8,26 @@ import Ggql.Props.Walk
 import Ggql.Gen.Dispatch
 namespace Ggql.Walk
 
-/-- GraphQL's DoesFragmentTypeApply for an object type `obj` and a type condition `c`: the condition is the
-type, an interface it implements, or a union it is a member of -/
-def typeApplies (s : Schema) (obj c : String) : Bool :=
-  c == obj ||
-  (match s.find obj with | some (.object _ _ ifs) => ifs.contains c | _ => false) ||
-  (match s.find c with | some (.union _ ms) => ms.contains obj | _ => false)
-
-/-- **C08_applies.**  Walked at an object type, a fragment applies exactly when its condition is that type,
-an interface the type implements, or a union the type is a member of. -/
+/-- **C08_applies.**  At an object-typed position a fragment applies exactly when its condition is that type, an
+interface the type implements, or a union the type is a member of (`typeApplies`: DoesFragmentTypeApply). -/
 theorem C08_applies (env : Env) (h : env.cfg.condByIdentity = false) (node : Nat) (ty c : String)
     (onm : String) (fs : List FieldDef) (ifs : List String) (ho : env.schema.find ty = some (.object onm fs ifs)) :
     fragApplies env node ty (some c) = typeApplies env.schema ty c := by
-  simp only [fragApplies, typeApplies, h, ho, Bool.false_eq_true, if_false, Bool.or_assoc]
-  cases hfc : env.schema.find c with
-  | none => rfl
-  | some td => cases td <;> rfl
+  simp only [fragApplies, objectTypeOf, h, ho, Bool.not_false, Bool.true_and]
+  simp only [typeApplies, Bool.or_assoc, Bool.or_self_left]
+
+/-- **C08_applies_abstract.**  At an interface- or union-typed position whose node's object type is determined
+(`objectTypeOf = some ot`: the Go type is bound to an object type that implements the interface / is a member of
+the union) a fragment applies exactly when its condition is the position's type or applies to that object type. -/
+theorem C08_applies_abstract (env : Env) (h : env.cfg.condByIdentity = false) (node : Nat) (ty c ot : String)
+    (hot : objectTypeOf env node ty = some ot) :
+    fragApplies env node ty (some c) = (c == ty || typeApplies env.schema ot c) := by
+  simp [fragApplies, h, hot]
+
+/-- when the object type can not be determined only a fragment on the position's own type applies -/
+theorem C08_applies_undetermined (env : Env) (node : Nat) (ty c : String) (hot : objectTypeOf env node ty = none) :
+    fragApplies env node ty (some c) = (c == ty) := by
+  simp [fragApplies, hot]
 
 /-- a fragment without a type condition always applies -/
 theorem C08_no_condition (env : Env) (node : Nat) (ty : String) : fragApplies env node ty none = true := rfl
@@ -38,30 +42,37 @@ theorem C08_unrelated (env : Env) (node : Nat) (ty : String) (d : Nat) (res : Li
   simp only [rSel, h, Bool.false_eq_true, if_false]
   split <;> simp
 
-/-- **C08_related.**  A fragment that applies (and is not excluded) is walked on the same object at the same
-type, into the same result map. -/
+/-- **C08_related.**  A fragment that applies (and is not excluded) is walked on the same object, into the same
+result map, at the type of its condition: the fields it may select are those of the condition (a field the
+condition does not define is an error there, C10), whatever the object's own type has besides. -/
 theorem C08_related (env : Env) (node : Nat) (ty : String) (d : Nat) (res : List (String × J))
     (cond : Option String) (dirs : List Skip.DirUse) (sels : List Sel)
     (hs : (Skip.skipSel env.cfg.skipTable dirs env.vars).1 = false)
     (h : fragApplies env node ty cond = true) :
-    (rSel env node ty d res (.inline cond dirs sels none)).1 = (rSels env node ty d res sels).1 ∧
-    (rSel env node ty d res (.inline cond dirs sels none)).2.calls = (rSels env node ty d res sels).2.calls := by
+    (rSel env node ty d res (.inline cond dirs sels none)).1 = (rSels env node (fragTy env ty cond) d res sels).1 ∧
+    (rSel env node ty d res (.inline cond dirs sels none)).2.calls = (rSels env node (fragTy env ty cond) d res sels).2.calls := by
   simp [rSel, h, hs]
 
-/-- **C08_interface_position.**  The value of an interface-typed field whose Go type is bound to an object type
-implementing the interface is walked at that object type: with `typename_walked`, `__typename` is the concrete
-type's name, and with `C08_applies` the fragments that apply are those of the concrete type. -/
+/-- the type an applying fragment's selections are walked at, repaired configuration -/
+theorem fragTy_condition (env : Env) (h : env.cfg.condByIdentity = false) (ty c : String) :
+    fragTy env ty (some c) = c ∧ fragTy env ty none = ty := by
+  simp [fragTy, h]
+
+/-- **C08_interface_position.**  At an interface-typed position whose node's Go type is bound to an object type
+implementing the interface, `__typename` is the object type's name and `objectTypeOf` is that type (so, with
+`C08_applies_abstract`, the fragments that apply are those of the concrete type). -/
 theorem C08_interface_position (env : Env) (h : env.cfg.condByIdentity = false) (node : Nat) (ity : String) (n : Node)
     (hn : env.graph[node]? = some n) (inm : String) (ifs0 : List FieldDef)
     (hi : env.schema.find ity = some (.iface inm ifs0))
     (onm : String) (fs : List FieldDef) (ifs : List String)
     (ho : env.schema.find n.goType = some (.object onm fs ifs)) (himp : ifs.contains ity = true)
     (d : Nat) (res : List (String × J)) (al : String) (args : List ArgVal) (sels : List Sel) :
-    dynTy env node ity = n.goType ∧
-    (rSel env node (dynTy env node ity) d res (.field al "__typename" args [] sels)).1 =
+    objectTypeOf env node ity = some n.goType ∧
+    (rSel env node ity d res (.field al "__typename" args [] sels)).1 =
       setKey res (if al.isEmpty then "__typename" else al) (.str n.goType) := by
-  have hd := dynTy_concrete env h node ity n hn inm ifs0 hi onm fs ifs ho himp
-  exact ⟨hd, by rw [hd]; exact typename_walked env node n.goType d res al args sels⟩
+  have hm : ity ∈ ifs := by simpa using himp
+  refine ⟨by simp [objectTypeOf, hn, hi, ho, hm], ?_⟩
+  rw [typename_walked, typeName_concrete env h node ity n hn inm ifs0 hi onm fs ifs ho himp]
 
 /-- **C08_union_position.**  The value of a union-typed field is walked at the first member type the object's
 Go type is bound to (in both configurations); a value bound to no member contributes an empty object. -/
